@@ -229,6 +229,17 @@ pub fn check(html: &str, w: usize, cx: &mut Cx) {
     if seen_multi || lines.len() >= 2 {
         cx.nontrivial();
     }
+    // "preformatted with its continuation flag": a line that was not produced by wrapping is
+    // never a continuation.  If the whole document renders identically at a width at which
+    // nothing can wrap, no piece may carry Preformat(true).  (Which pieces of a wrapped line
+    // are continuations is C12's subject.)
+    if d.has_elem("pre") && lines.iter().any(|l| l.iter().any(|p| matches!(p, Piece::Str(_, t) if t.iter().any(|x| x == "Preformat(true)")))) {
+        let wide = cx.render(html.as_bytes(), 400, &cfg);
+        cx.state(1);
+        if wide.ok().map(|s| s.as_str()) == Some(lines_text(lines).as_str()) {
+            cx.violation("Preformat(true) on a line that was not wrapped", || json!({"html": html, "width": w, "lines": format!("{lines:?}")}));
+        }
+    }
     if known_pre {
         cx.known("KF-C09-1", || json!({"html": html, "width": w}));
     }
@@ -310,6 +321,8 @@ fn contexts(r: Vec<N>) -> Vec<Vec<N>> {
         // nested table inside a coloured cell (e-mail style markup)
         vec![e("table", vec![e("tr", vec![ea("td", &col, vec![e("table", vec![e("tr", vec![ea("td", &bg, r.clone()), e("td", vec![t("z")])])]), t("y")]), e("td", vec![t("w")])])]), e("p", vec![t("v")])],
         vec![e("strong", vec![e("ul", vec![ea("li", &col, r.clone()), e("li", vec![t("z")])]), t("y")])],
+        // pre with several lines: a long first line, the next line starting with the inline run
+        vec![e("pre", { let mut v = vec![t("zzzzzzzzzzzzzzzzzzzzzzzz\n")]; v.extend(r.clone()); v.push(t("\nyy")); v })],
     ]
 }
 
@@ -334,8 +347,8 @@ impl Scope for S {
     }
     fn info(&self) -> Info {
         Info {
-            rule: "inline nestings (every chain of wrappers up to the stated depth over 13 wrappers incl. links, images, sup, inline-style / class / color= colours) in two run shapes x 23 block contexts (p, li, quote, heading, table cell, dt, dd, pre, div, coloured div/table/tr/td/ul/li/ol/blockquote, list inside em, pre in quote in list, nested table, styled cells inside annotated contexts followed by siblings) x every width (so every token is also seen wrapped); expected vectors from the oracle DOM; non-trivial = some piece carries >= 2 annotations or the output has >= 2 lines".into(),
-            bounds: json!({"chains": self.chains.len(), "max_chain_depth": self.chains.iter().map(|c| c.len()).max(), "wrappers": INL.iter().map(|w| format!("{}{:?}", w.0, w.1)).collect::<Vec<_>>(), "contexts": 23, "widths": format!("1..={}", self.maxw)}),
+            rule: "inline nestings (every chain of wrappers up to the stated depth over 13 wrappers incl. links, images, sup, inline-style / class / color= colours) in two run shapes x 24 block contexts (p, li, quote, heading, table cell, dt, dd, pre, div, coloured div/table/tr/td/ul/li/ol/blockquote, list inside em, pre in quote in list, nested table, styled cells inside annotated contexts followed by siblings) x every width (so every token is also seen wrapped); expected vectors from the oracle DOM; non-trivial = some piece carries >= 2 annotations or the output has >= 2 lines".into(),
+            bounds: json!({"chains": self.chains.len(), "max_chain_depth": self.chains.iter().map(|c| c.len()).max(), "wrappers": INL.iter().map(|w| format!("{}{:?}", w.0, w.1)).collect::<Vec<_>>(), "contexts": 24, "widths": format!("1..={}", self.maxw)}),
             assumptions: vec!["RichAnnotation::Default (pushed for <sup>) is treated as neutral".into(), "Preformat's continuation flag is C12's subject and is ignored here".into(), "colours come from single uncontested declarations (the cascade is C19's subject)".into()],
         }
     }
